@@ -209,6 +209,11 @@ def run(F, rep):
             eqs = [c for c in g.walk() if (c.get('k') == 'Call' and c.get('opc') == '==') or (c.get('k') == 'Bin' and c.get('op') == '==')]
             rep.check(not sub and bool(eqs), 'C19.I4', '%s/%d' % (g.short, len(g.params)), g.where(), '%s decides with %s' % (g.short, sorted({c['fn'] for c in sub}) or 'no equality comparison'), 'whole-string comparisons only')
 
+    # ------------------------------------------------------------------ A: verdicts gathered over loops
+    from engines import rule_accumulators
+    rule_accumulators(F, rep, 'C19.A1', lambda g: g.file.endswith('/model.cpp') or (g.file.endswith('/utilities.cpp') and 'ink' in g.name), 3, 'model.cpp and the linking helpers of utilities.cpp', 'the verdict of linkUnits/fixVariableInterfaces must not be that of the last component or variable visited')
+
+
 
 def _exits_after(f, loop, call):
     """Is the removal followed by leaving the loop (break/return) on every path?"""
